@@ -172,8 +172,8 @@ Definition delete_connection (g : grid) (k : key2) : res grid :=
   match cget g k with
   | None => Ok g
   | Some j =>
-      do g1 <- cn_remove g (c0 g j) k;
-      do g2 <- cn_remove g1 (c1 g j) k;
+      do g1 <- cn_remove g (c0 g j) k;                      (* for block in set(con.block): one removal per DISTINCT end *)
+      do g2 <- (if Pos.eqb (c1 g j) (c0 g j) then Ok g1 else cn_remove g1 (c1 g j) k);
       let g3 := set_cdict g2 (adel key2_eqb (cdict g2) k) in
       if mem j (clist g3) then Ok (set_clist g3 (lremove (clist g3) j)) else Raise ValueError
   end.
@@ -547,29 +547,8 @@ Section MincPartial.
     end.
 End MincPartial.
 
-(** delete_connection: [for block in con.block: block.connection_name.remove(name)] -- the second [remove] raises
-    KeyError when the connection joins a block with itself (the name was recorded once and is gone after the first);
-    delete_block stops in its loop over the block's connection names (the model takes them in the order in which they
-    were recorded; Python iterates over a copy of the set) *)
-Definition delete_connection_partial (g : grid) (k : key2) : grid :=
-  match cget g k with
-  | None => g
-  | Some j =>
-      match cn_remove g (c0 g j) k with
-      | Raise _ => g
-      | Ok g1 => match cn_remove g1 (c1 g j) k with Raise _ => g1 | Ok g2 => set_cdict g2 (adel key2_eqb (cdict g2) k) end
-      end
-  end.
-Fixpoint delete_connections_partial (g : grid) (ks : list key2) : grid :=
-  match ks with
-  | [] => g
-  | k :: r => match delete_connection g k with Ok g1 => delete_connections_partial g1 r | Raise _ => delete_connection_partial g k end
-  end.
-
 Definition after (g : grid) (o : op) : grid :=
   match o with
-  | DelConn a b => delete_connection_partial g (a, b)     (* KeyError: a connection of a block with itself *)
-  | DelBlock n => match bget g n with Some i => delete_connections_partial g (cn g i) | None => g end
   | Demote ns => demote_partial g ns                       (* TypeError: pop(None) at an unknown name *)
   | Reorder bns cns => reorder_partial g bns cns           (* KeyError (block), Exception (connection) *)
   | Minc mb mr levels sel inel => minc_partial mb mr levels sel inel g
@@ -577,7 +556,8 @@ Definition after (g : grid) (o : op) : grid :=
                                                               the sum was a local object and only re-added recorded names *)
   | _ => g                                                 (* rename_rocktype (Exception), add_block / add_connection with an
                                                               unknown name (KeyError in the caller's expression), rename_blocks
-                                                              with a short name (IndexError in fix_block_mapping): nothing assigned yet *)
+                                                              with a short name (IndexError in fix_block_mapping): nothing assigned yet;
+                                                              the other edits never raise on a consistent grid *)
   end.
 
 (** a run in which the caller catches every exception and carries on with the grid as the refused edit left it *)
